@@ -201,5 +201,24 @@ def install():
     _wrap(WC, 'reset_worker_restart', wid0)
     _wrap(WC, 'init_comms', lambda self, a, kw: {})
     _wrap(WC, 'reset_progress', lambda self, a, kw: {})
+    # what the progress bar displays: every update of the bar object, whatever its style
+    try:
+        from mpire import tqdm_utils
+        for cls in {tqdm_utils.TqdmMpire} | {c for c in vars(tqdm_utils).values()
+                                              if isinstance(c, type) and issubclass(c, tqdm_utils.TqdmMpire)}:
+            for meth in ('update', 'update_total', 'final_refresh'):
+                if meth in vars(cls):
+                    def mk(orig, meth):
+                        @functools.wraps(orig)
+                        def w(self, *a, **kw):
+                            r = orig(self, *a, **kw)
+                            if _TRACE:
+                                log_event('bar', m=meth, n=getattr(self, 'n', None), total=getattr(self, 'total', None),
+                                          bar=id(self), arg=(a[0] if a and isinstance(a[0], int) else None))
+                            return r
+                        return w
+                    setattr(cls, meth, mk(vars(cls)[meth], meth))
+    except Exception as e:       # instrumentation must never break the library
+        log_event('hook_error', what=repr(e))
     if any(r.get('method') == 'is_worker_alive' for r in _PLAN):
         _wrap(WC, 'is_worker_alive', None)
